@@ -312,7 +312,10 @@ pub fn replay(args: &Args) -> i32 {
         let obs = observe(&file, &book);
         let strictly_asis = obs == b["asis"];
         // a reader with some of the listed deviations repaired reads part of the workbook as the ideal says
-        let is_asis = strictly_asis || (!unspec && explained_mix(&obs, &b["ideal"], &b["asis"]));
+        // -- `cands`: what the model reads with each subset of the exhibited deviations repaired (Biff5.tla, Rep);
+        // leaf by leaf on top of that, for repairs whose result the model has no switch for
+        let is_asis = strictly_asis || (!unspec && (explained_mix(&obs, &b["ideal"], &b["asis"])
+            || b["cands"].as_array().map_or(false, |cs| cs.iter().any(|c| obs == *c || explained_mix(&obs, &b["ideal"], c)))));
         if unspec {
             if !strictly_asis { rep.fail("unexplained", doc, b["asis"].clone(), obs); }
         } else if obs == b["ideal"] {
